@@ -130,6 +130,7 @@ func init() {
 		}
 		hs = append(hs,
 			harness{Name: "gsxC09CommentFix", Pkg: "checkers", Quick: map[string]int{"strlen": 8, "paths": 4000, "wall_s": 150}, Thorough: map[string]int{"strlen": 12, "paths": 20000, "wall_s": 900}, MustReach: []string{"checked", "reported", "re-analysed"}},
+			harness{Name: "gsxC09ParamCombine", Pkg: "checkers", Solver: "z3", Quick: map[string]int{"paths": 3000, "wall_s": 60}, NoValidate: true, Tolerant: true, ReplayFn: replayParamCombine, MustReach: []string{"visited", "suggested"}},
 			harness{Name: "gsxC09RuleFix", Pkg: "checkers", Quick: map[string]int{"strlen": 4, "paths": 4000, "wall_s": 120}, NoValidate: true, ReplayFn: replayRuleFix, MustReach: []string{"checked"}})
 		properties["C09"] = &property{ID: "C09", Level: "model_checking", Kinds: []string{"suggest"}, Harnesses: hs, Extra: runRuleTV("C09"), ReplayExtra: replayRuleTV,
 			Assumptions: []string{"as C01; the syntax trees handed to the message printer are checked against go/ast's documented well-formedness (required children present); confirmed natively: the printed suggestion parses as the replaced category, substituted for the original the file type-checks with the same type, and re-analysis does not report at that place"}}
